@@ -355,3 +355,41 @@ def rule_handle_stays_in_guard(ctx, facts, rule):
     for ty, n in seen.items():
         ctx.floor(rule, ty, n, len(HANDLE_OWNERS[ty]), "sites that move %s out of its guard" % ty.rsplit("::", 1)[1])
 
+
+def rule_refused_scope_masks(ctx, facts, rule):
+    """A scope the stack refuses (limit reached) must still mask the enclosing scope: otherwise local spans, events and
+    properties recorded "under" the refused local parent act on the enclosing scope and are delivered with another
+    parent, possibly in another trace. Necessary: the refusing path of register_span_line leaves a trace in the stack's
+    state (a store to a field of self, or a &mut self call) that the local operations can test; a refusal that changes
+    nothing is invisible to them."""
+    fn = ctx.need_fn(facts, STACK + "register_span_line", rule)
+    if fn is None:
+        return
+    pushes = [b for b in fn.calls_re(r"alloc::vec::Vec::<T, A>::push$", cleanup=False)
+              if "SpanLine>" in fn.term(b)["arg_tys"][0]]
+    if not pushes:
+        ctx.fail(rule, fn.path, fn.span, "register_span_line pushes a span line", "anchor lost: no push", extra="anchor")
+        return
+    refusing = fn.reach([0], avoid_blocks=set(pushes))
+    rets = [b for b in refusing if fn.blocks[b]["term"]["k"] == "return"]
+    if not rets:
+        ctx.ok(rule, fn.path, fn.span, "register_span_line never refuses a scope", "every return passes the push", extra="refusal-invisible")
+        return
+    # blocks that lie only on refusing paths: reachable while avoiding the push, and from which the push is unreachable
+    only_refuse = {b for b in refusing if not (fn.reach([b]) & set(pushes))}
+    writes = []
+    for b in sorted(only_refuse):
+        for st in fn.blocks[b]["stmts"]:
+            if st["k"] == "assign" and st["lhs"]["l"] == 1 and st["lhs"]["p"] and st["lhs"]["p"][0] == "*":
+                writes.append(fn.loc(b))
+        t = fn.blocks[b]["term"]
+        if t["k"] == "call" and any(ty.startswith("&mut ") and "local_span" in ty for ty in t.get("arg_tys", [])):
+            writes.append(fn.loc(b))
+    ctx.check(bool(writes), rule, fn.path, fn.span,
+              "a refused scope (limit reached) is recorded in the stack's state, so that local operations under it cannot act on "
+              "the enclosing scope",
+              "refusing path writes self at %s" % writes,
+              "the refusing path (span_lines.len() >= capacity -> None) changes nothing: after the 4096th nested scope a further "
+              "`other.set_local_parent()` is invisible, current_local_parent() still answers with the enclosing scope's parent and a "
+              "LocalSpan entered under `other` is delivered under the enclosing parent, in its trace", extra="refusal-invisible")
+
